@@ -223,11 +223,22 @@ impl Response {
                 body: content_buf,
             })
         } else {
+            // With neither a length nor chunking, the body is delimited by the end of the
+            //   connection, unless the status code does not allow a body at all.
+            let code: u16 = status.into();
+            let mut body: Vec<u8> = Vec::new();
+
+            if !((100..200).contains(&code) || code == 204 || code == 304) {
+                reader
+                    .read_to_end(&mut body)
+                    .map_err(|_| ResponseError::Stream)?;
+            }
+
             Ok(Self {
                 version,
                 status_code: status,
                 headers,
-                body: Vec::new(),
+                body,
             })
         }
     }
